@@ -1285,7 +1285,7 @@ package scipipe
 
 //@ define joinPort(portInfos map[string]*PortInfo, k string) bool = k in portInfos && portInfos[k].join && portInfos[k].joinSep != ""
 //@ define subChan(inIPs map[string]*FileIP, k string) chan *FileIP = inIPs[k].SubStream.Chan
-//@ define isSubChanOf(portInfos map[string]*PortInfo, inIPs map[string]*FileIP, c chan *FileIP) bool = exists k string :: joinPort(portInfos, k) && old(subChan(inIPs, k)) == c
+//@ define isSubChanOf(portInfos map[string]*PortInfo, inIPs map[string]*FileIP, c ref) bool = exists k string :: joinPort(portInfos, k) && old(subChan(inIPs, k)) == c
 //@ define wfJoinInputs(portInfos map[string]*PortInfo, inIPs map[string]*FileIP) bool = portInfos != nil && (forall k string :: k in portInfos ==> portInfos[k] != nil) && (forall k string :: joinPort(portInfos, k) ==> k in inIPs && inIPs[k] != nil && inIPs[k].SubStream != nil && subChan(inIPs, k) != nil) && (forall k1 string, k2 string :: joinPort(portInfos, k1) && joinPort(portInfos, k2) && k1 != k2 ==> subChan(inIPs, k1) != subChan(inIPs, k2))
 
 //@ func NewTask(workflow, process, name, cmdPat, inIPs, outPathFuncs, portInfos, params, tags, prepend, customExecute, cores) (t)
@@ -1299,8 +1299,9 @@ package scipipe
 //@   ensures out-ips-valid[C09]: forall o string :: o in t.OutIPs ==> t.OutIPs[o] != nil && fresh(t.OutIPs[o]) && validPath(t.OutIPs[o].path) && validIP(t.OutIPs[o])
 //@   ensures stream-flag-propagated[C17]: forall o string :: o in t.OutIPs ==> (t.OutIPs[o].doStream <==> (o in portInfos && portInfos[o].doStream))
 //@   ensures substream-drained[C18]: forall k string :: joinPort(portInfos, k) ==> k in t.subStreamIPs && chanRecvN(subChan(inIPs, k)) == chanTotal(subChan(inIPs, k)) && len(t.subStreamIPs[k]) == chanTotal(subChan(inIPs, k)) - old(chanRecvN(subChan(inIPs, k))) && (forall j int :: 0 <= j && j < len(t.subStreamIPs[k]) ==> t.subStreamIPs[k][j] == chanInAt(subChan(inIPs, k), old(chanRecvN(subChan(inIPs, k))) + j))
-//@   ensures nothing-sent: forall c chan *FileIP :: !fresh(c) ==> chanSentN(c) == old(chanSentN(c))
-//@   ensures only-substreams-read[C04,C18]: forall c chan *FileIP :: !fresh(c) && !isSubChanOf(portInfos, inIPs, c) ==> chanRecvN(c) == old(chanRecvN(c)) && chanRecvA(c) == old(chanRecvA(c)) && chanClosed(c) == old(chanClosed(c))
+//@   ensures nothing-sent: forall c ref :: !fresh(c) ==> chanSentN(c) == old(chanSentN(c))
+//@   ensures nothing-closed: forall c ref :: !fresh(c) ==> chanClosed(c) == old(chanClosed(c))
+//@   ensures only-substreams-read[C04,C18]: forall c ref :: !fresh(c) && !isSubChanOf(portInfos, inIPs, c) ==> chanRecvN(c) == old(chanRecvN(c)) && chanRecvA(c) == old(chanRecvA(c)) && chanClosed(c) == old(chanClosed(c))
 //@   ensures no-effects: effCreated == old(effCreated) && effMkdir == old(effMkdir) && effRenamed == old(effRenamed) && effRemoved == old(effRemoved) && effExec == old(effExec)
 //@   loop 0 invariant entry-allocated: forall k string :: joinPort(portInfos, k) ==> !fresh(old(inIPs[k])) && !fresh(old(inIPs[k].SubStream)) && !fresh(old(subChan(inIPs, k)))
 //@   loop 0 invariant inputs-unchanged: forall k string :: joinPort(portInfos, k) ==> inIPs[k] == old(inIPs[k]) && inIPs[k].SubStream == old(inIPs[k].SubStream) && subChan(inIPs, k) == old(subChan(inIPs, k))
@@ -1311,8 +1312,8 @@ package scipipe
 //@   loop 0 invariant vis: forall k string :: $visited[k] ==> k in portInfos
 //@   loop 0 invariant drained: forall k string :: $visited[k] && joinPort(portInfos, k) ==> k in t.subStreamIPs && chanRecvN(subChan(inIPs, k)) == chanTotal(subChan(inIPs, k)) && len(t.subStreamIPs[k]) == chanTotal(subChan(inIPs, k)) - old(chanRecvN(subChan(inIPs, k))) && (forall j int :: 0 <= j && j < len(t.subStreamIPs[k]) ==> t.subStreamIPs[k][j] == chanInAt(subChan(inIPs, k), old(chanRecvN(subChan(inIPs, k))) + j))
 //@   loop 0 invariant not-yet: forall k string :: joinPort(portInfos, k) && !$visited[k] ==> chanRecvN(subChan(inIPs, k)) == old(chanRecvN(subChan(inIPs, k)))
-//@   loop 0 invariant only-substreams-read: forall c chan *FileIP :: !fresh(c) && !isSubChanOf(portInfos, inIPs, c) ==> chanRecvN(c) == old(chanRecvN(c)) && chanRecvA(c) == old(chanRecvA(c)) && chanClosed(c) == old(chanClosed(c))
-//@   loop 0 invariant nothing-sent: forall c chan *FileIP :: !fresh(c) ==> chanSentN(c) == old(chanSentN(c))
+//@   loop 0 invariant only-substreams-read: forall c ref :: !fresh(c) && !isSubChanOf(portInfos, inIPs, c) ==> chanRecvN(c) == old(chanRecvN(c)) && chanRecvA(c) == old(chanRecvA(c)) && chanClosed(c) == old(chanClosed(c))
+//@   loop 0 invariant nothing-sent: forall c ref :: !fresh(c) ==> chanSentN(c) == old(chanSentN(c)) && chanClosed(c) == old(chanClosed(c))
 //@   loop 1 invariant entry-allocated: forall k string :: joinPort(portInfos, k) ==> !fresh(old(inIPs[k])) && !fresh(old(inIPs[k].SubStream)) && !fresh(old(subChan(inIPs, k)))
 //@   loop 1 invariant inputs-unchanged: forall k string :: joinPort(portInfos, k) ==> inIPs[k] == old(inIPs[k]) && inIPs[k].SubStream == old(inIPs[k].SubStream) && subChan(inIPs, k) == old(subChan(inIPs, k))
 //@   loop 1 invariant fresh: t != nil && fresh(t) && fresh(t.subStreamIPs) && t.subStreamIPs != nil && fresh(t.OutIPs) && t.OutIPs != nil && t.OutIPs != inIPs
@@ -1323,8 +1324,8 @@ package scipipe
 //@   loop 1 invariant collected: chanRecvN(subChan(inIPs, ptName)) >= old(chanRecvN(subChan(inIPs, ptName))) && chanRecvN(subChan(inIPs, ptName)) <= chanTotal(subChan(inIPs, ptName)) && len(ips) == chanRecvN(subChan(inIPs, ptName)) - old(chanRecvN(subChan(inIPs, ptName))) && (forall j int :: 0 <= j && j < len(ips) ==> ips[j] == chanInAt(subChan(inIPs, ptName), old(chanRecvN(subChan(inIPs, ptName))) + j))
 //@   loop 1 invariant others-drained: forall k string :: $visited0[k] && k != ptName && joinPort(portInfos, k) ==> k in t.subStreamIPs && chanRecvN(subChan(inIPs, k)) == chanTotal(subChan(inIPs, k)) && len(t.subStreamIPs[k]) == chanTotal(subChan(inIPs, k)) - old(chanRecvN(subChan(inIPs, k))) && (forall j int :: 0 <= j && j < len(t.subStreamIPs[k]) ==> t.subStreamIPs[k][j] == chanInAt(subChan(inIPs, k), old(chanRecvN(subChan(inIPs, k))) + j))
 //@   loop 1 invariant not-yet: forall k string :: joinPort(portInfos, k) && !$visited0[k] ==> chanRecvN(subChan(inIPs, k)) == old(chanRecvN(subChan(inIPs, k)))
-//@   loop 1 invariant only-substreams-read: forall c chan *FileIP :: !fresh(c) && !isSubChanOf(portInfos, inIPs, c) ==> chanRecvN(c) == old(chanRecvN(c)) && chanRecvA(c) == old(chanRecvA(c)) && chanClosed(c) == old(chanClosed(c))
-//@   loop 1 invariant nothing-sent: forall c chan *FileIP :: !fresh(c) ==> chanSentN(c) == old(chanSentN(c))
+//@   loop 1 invariant only-substreams-read: forall c ref :: !fresh(c) && !isSubChanOf(portInfos, inIPs, c) ==> chanRecvN(c) == old(chanRecvN(c)) && chanRecvA(c) == old(chanRecvA(c)) && chanClosed(c) == old(chanClosed(c))
+//@   loop 1 invariant nothing-sent: forall c ref :: !fresh(c) ==> chanSentN(c) == old(chanSentN(c)) && chanClosed(c) == old(chanClosed(c))
 //@   loop 2 invariant entry-allocated: forall k string :: joinPort(portInfos, k) ==> !fresh(old(inIPs[k])) && !fresh(old(inIPs[k].SubStream)) && !fresh(old(subChan(inIPs, k)))
 //@   loop 2 invariant fresh: t != nil && fresh(t) && allocated(t) && fresh(t.subStreamIPs) && allocated(t.subStreamIPs) && fresh(t.OutIPs) && allocated(t.OutIPs) && t.OutIPs != nil && t.OutIPs != inIPs && allocated(t.Done)
 //@   loop 2 invariant fields: t.Name == name && t.InIPs == inIPs && t.Params == params && t.Tags == tags && t.cores == cores && t.workflow == workflow && t.Process == process && t.CustomExecute == customExecute && t.portInfos == portInfos
@@ -1339,8 +1340,8 @@ package scipipe
 //@   loop 2 invariant drained-b: forall k string :: joinPort(portInfos, k) ==> chanRecvN(subChan(inIPs, k)) == chanTotal(subChan(inIPs, k))
 //@   loop 2 invariant drained-c: forall k string :: joinPort(portInfos, k) ==> len(t.subStreamIPs[k]) == chanTotal(subChan(inIPs, k)) - old(chanRecvN(subChan(inIPs, k)))
 //@   loop 2 invariant drained-d: forall k string, j int :: joinPort(portInfos, k) && 0 <= j && j < len(t.subStreamIPs[k]) ==> t.subStreamIPs[k][j] == chanInAt(subChan(inIPs, k), old(chanRecvN(subChan(inIPs, k))) + j)
-//@   loop 2 invariant only-substreams-read: forall c chan *FileIP :: !fresh(c) && !isSubChanOf(portInfos, inIPs, c) ==> chanRecvN(c) == old(chanRecvN(c)) && chanRecvA(c) == old(chanRecvA(c)) && chanClosed(c) == old(chanClosed(c))
-//@   loop 2 invariant nothing-sent: forall c chan *FileIP :: !fresh(c) ==> chanSentN(c) == old(chanSentN(c))
+//@   loop 2 invariant only-substreams-read: forall c ref :: !fresh(c) && !isSubChanOf(portInfos, inIPs, c) ==> chanRecvN(c) == old(chanRecvN(c)) && chanRecvA(c) == old(chanRecvA(c)) && chanClosed(c) == old(chanClosed(c))
+//@   loop 2 invariant nothing-sent: forall c ref :: !fresh(c) ==> chanSentN(c) == old(chanSentN(c)) && chanClosed(c) == old(chanClosed(c))
 //@   loop 2 invariant no-effects: effCreated == old(effCreated) && effMkdir == old(effMkdir) && effRenamed == old(effRenamed) && effRemoved == old(effRemoved) && effExec == old(effExec)
 
 // ---------------------------------------------------------------------------
@@ -1372,6 +1373,7 @@ package scipipe
 //@   props C04 C08
 //@   requires wf: wfProcess(p) && ch != nil && taskChanOwner(ch) == p && !chanClosed(ch)
 //@   modifies *
+//@   assumecall NewTask carrier-ips-not-shared: distinctSubStreams($arg6, $arg4)
 //@   ensures channel-closed-once[C04]: chanClosed(ch)
 //@   loop 0 invariant wf: wfProcess(p) && ch != nil && taskChanOwner(ch) == p && p == old(p) && ch == old(ch)
 //@   loop 0 invariant count: chanSentN(ch) >= old(chanSentN(ch)) && !chanClosed(ch)
